@@ -294,3 +294,119 @@ def null_field_masks_stub(strategy, unique=False):
     elif unique and n > 1:
         extra = [z3.AtMost(*masks, 1)]
     return SymSeriesStrategy(out, strategy.cons + extra)
+
+
+# ------------------------------------------------------------------------------------------------ dataframe level
+class SymColumn:
+    """hypothesis.extra.pandas.column(name, elements, dtype, unique): a description, consumed by data_frames"""
+
+    def __init__(self, name, elements, dtype, unique):
+        self.name, self.elements, self.dtype, self.unique = name, elements, dtype, unique
+
+
+class SymFrameStrategy:
+    """hypothesis.extra.pandas.data_frames(columns, rows, index) by its documented contract: `size` rows; every cell of a column
+    is drawn from that column's elements strategy (from the `rows` strategy's entry for the column when rows is given); the
+    cells of a unique column are pairwise distinct.  .filter(p) / .map(f) run the REAL function on the symbolic frame."""
+
+    def __init__(self, frame, cons):
+        self.frame, self.cons = frame, list(cons)
+
+    def filter(self, pred):
+        r = pred(self.frame)
+        c = r.z if isinstance(r, SymBool) else z3.BoolVal(bool(r))
+        return SymFrameStrategy(self.frame, self.cons + [c])
+
+    def map(self, f):
+        return SymFrameStrategy(f(self.frame), self.cons)
+
+    def validate(self):
+        return None
+
+
+def _pdst_column(name=None, elements=None, dtype=None, fill=None, unique=False):
+    if not isinstance(elements, SymStrategy):
+        raise ModelGap("pdst.column without a modelled elements strategy")
+    return SymColumn(name, elements, dtype, unique)
+
+
+def _pdst_data_frames(columns=None, rows=None, index=None):
+    import symframe
+
+    if not isinstance(index, tuple):
+        raise ModelGap("data_frames without a fixed-size range index")
+    n = index[1]
+    cols, cons = [], []
+    for c in columns or []:
+        src = c.elements
+        if rows is not None:
+            if not isinstance(rows, dict) or c.name not in rows:
+                raise ModelGap("rows strategy")
+            src = rows[c.name]
+        src.validate()
+        xs = []
+        for _ in range(n):
+            xi = fresh(src.x.sort())
+            xs.append(xi)
+            cons += [z3.substitute(k, (src.x, xi)) for k in src.cons]
+        if c.unique and n > 1:
+            cons.append(z3.Distinct(*xs))
+        dt = np.dtype(c.dtype) if c.dtype is not None else np.dtype(object)
+        if dt.kind in "US":
+            dt = np.dtype(object)
+        cols.append((c.name, symframe.Series(xs, nulls=[z3.BoolVal(False)] * n, name=c.name, dtype=dt)))
+    return SymFrameStrategy(symframe.DataFrame(cols), cons)
+
+
+PDST.column = staticmethod(_pdst_column)
+PDST.data_frames = staticmethod(_pdst_data_frames)
+ST.fixed_dictionaries = staticmethod(lambda mapping: dict(mapping))
+
+
+def composite_stub(fn):
+    """hypothesis.strategies.composite by its contract: the decorated function builds a value from draws; draw(s) hands out the
+    (symbolic) value of s and the value's constraints are accumulated"""
+
+    def make(*a, **kw):
+        acc = []
+
+        def draw(s):
+            if isinstance(s, (SymFrameStrategy, SymSeriesStrategy)):
+                acc.extend(s.cons)
+                return s.frame if isinstance(s, SymFrameStrategy) else s.series
+            if isinstance(s, SymStrategy):
+                s.validate()
+                acc.extend(s.cons)
+                return wrap(s.x)
+            raise ModelGap(f"draw from {type(s).__name__}")
+
+        out = fn(draw, *a, **kw)
+        import symframe
+
+        if isinstance(out, symframe.DataFrame):
+            return SymFrameStrategy(out, acc)
+        if isinstance(out, symframe.Series):
+            return SymSeriesStrategy(out, acc)
+        raise ModelGap("composite result")
+
+    return make
+
+
+def null_dataframe_masks_stub(strategy, nullable_columns, unique_columns=None):
+    """pandera.strategies.pandas_strategies.null_dataframe_masks by its documented contract: every cell of a nullable column may
+    independently be replaced by a null (at most one cell per column that has to be unique)"""
+    import symframe
+
+    if not isinstance(strategy, SymFrameStrategy):
+        raise ModelGap("null_dataframe_masks of a non-frame strategy")
+    fr = strategy.frame
+    n = len(fr.present)
+    cols, extra = [], []
+    for k, c in fr._cols:
+        if nullable_columns.get(k):
+            masks = [z3.Bool(f"nullmask_{k}_{i}") for i in range(n)]
+            c = c._new(nulls=[z3.Or(a, m) for a, m in zip(c.nulls, masks)])
+            if unique_columns and unique_columns.get(k) and n > 1:
+                extra.append(z3.AtMost(*masks, 1))
+        cols.append((k, c))
+    return SymFrameStrategy(symframe.DataFrame(cols, present=fr.present, index=fr.index.copy()), strategy.cons + extra)
